@@ -454,7 +454,7 @@ func TestC19(t *testing.T) {
 		return
 	}
 	marshal := func(v any) json.RawMessage { b, _ := json.Marshal(v); return b }
-	rapidCheck(t, "faithful", tierN(1500, 40000), func(rt *rapid.T) {
+	rapidCheck(t, "faithful", tierN(4500, 40000), func(rt *rapid.T) {
 		m := genDoc(rt)
 		s.exec(rt, "faithful", c19Doc{marshal(m.Proof), marshal(m.VData), kvStrings(m.Leaves), m.PIs}, "faithful/random-shape")
 		if len(m.Sites) == 0 {
@@ -481,7 +481,7 @@ func TestC19(t *testing.T) {
 		}
 		s.exec(rt, "faithful", c19Doc{marshal(m.Proof), marshal(m.VData), kvStrings(want), pis}, "faithful/one-value-edited")
 	})
-	rapidCheck(t, "history", tierN(400, 10000), func(rt *rapid.T) {
+	rapidCheck(t, "history", tierN(1200, 10000), func(rt *rapid.T) {
 		n := rapid.IntRange(2, 4).Draw(rt, "documents")
 		h := c19Hist{}
 		var first *docModel
@@ -532,7 +532,7 @@ func TestC19(t *testing.T) {
 		h.Order = rapid.Permutation(ord).Draw(rt, "order")
 		s.exec(rt, "history", h, fmt.Sprintf("history/%d-documents", n))
 	})
-	rapidCheck(t, "corrupt", tierN(1500, 40000), func(rt *rapid.T) {
+	rapidCheck(t, "corrupt", tierN(4500, 40000), func(rt *rapid.T) {
 		m := genDoc(rt)
 		if len(m.Sites) == 0 {
 			return
@@ -586,7 +586,7 @@ func TestC19(t *testing.T) {
 		s.exec(rt, "corrupt", c19Corrupt{marshal(m.Proof), marshal(m.VData), what + " at " + fmt.Sprint(site.Path[maxInt(0, len(site.Path)-2):])}, "corrupt/"+where+"/"+what)
 	})
 	// scalar where a list is expected (structural)
-	rapidCheck(t, "corrupt-list", tierN(400, 8000), func(rt *rapid.T) {
+	rapidCheck(t, "corrupt-list", tierN(1200, 8000), func(rt *rapid.T) {
 		m := genDoc(rt)
 		paths := [][]any{{"proof", "wires_cap"}, {"proof", "openings", "wires"}, {"proof", "opening_proof", "query_round_proofs"}, {"proof", "opening_proof", "commit_phase_merkle_caps"}, {"proof", "opening_proof", "final_poly", "coeffs"}, {"public_inputs"}, {"proof", "openings", "constants"}}
 		p := rapid.SampledFrom(paths).Draw(rt, "list")
@@ -594,7 +594,7 @@ func TestC19(t *testing.T) {
 		setAtPath(m.Proof, p, nv)
 		s.exec(rt, "corrupt", c19Corrupt{marshal(m.Proof), marshal(m.VData), fmt.Sprintf("scalar %v where list %v is expected", nv, p[len(p)-1])}, "corrupt/scalar-for-list")
 	})
-	rapidCheck(t, "common", tierN(600, 15000), func(rt *rapid.T) {
+	rapidCheck(t, "common", tierN(1800, 15000), func(rt *rapid.T) {
 		u := func() json.Number { return json.Number(fmt.Sprint(genU64().Draw(rt, "u"))) }
 		ul := func(k int) []any {
 			l := make([]any, k)
